@@ -143,16 +143,26 @@ func rawState(l *sqlLexer) stateFn {
 				return placeholderState
 			}
 		case '-':
+			// MySQL dialect: "--" starts a comment only when followed by whitespace or the end of input
 			nextRune, width := utf8.DecodeRuneInString(l.src[l.pos:])
 			if nextRune == '-' {
-				l.pos += width
-				return oneLineCommentState
+				after, afterWidth := utf8.DecodeRuneInString(l.src[l.pos+width:])
+				if afterWidth == 0 || after == ' ' || after == '\n' || after == '\t' || after == '\r' {
+					l.pos += width
+					return oneLineCommentState
+				}
 			}
+		case '#':
+			return oneLineCommentState
 		case '/':
 			nextRune, width := utf8.DecodeRuneInString(l.src[l.pos:])
 			if nextRune == '*' {
 				l.pos += width
 				return multilineCommentState
+			}
+			if nextRune == '/' {
+				l.pos += width
+				return oneLineCommentState
 			}
 		case utf8.RuneError:
 			if width != replacementcharacterwidth {
@@ -301,10 +311,7 @@ func oneLineCommentState(l *sqlLexer) stateFn {
 		l.pos += width
 
 		switch r {
-		case '\\':
-			_, width = utf8.DecodeRuneInString(l.src[l.pos:])
-			l.pos += width
-		case '\n', '\r':
+		case '\n':
 			return rawState
 		case utf8.RuneError:
 			if width != replacementcharacterwidth {
